@@ -14,6 +14,7 @@ import (
 	"strings"
 	"sync"
 	"sync/atomic"
+	"syscall"
 	"time"
 
 	"github.com/pegnet/pegnetd/config"
@@ -185,6 +186,25 @@ type Node struct {
 // DBFile is the on-disk name pegnetd derives from the configured path.
 func DBFile(path string) string { return path + ".v4" }
 
+// openFiles maps the process's open descriptors to what they point at.
+func openFiles() map[int]string {
+	out := map[int]string{}
+	ents, err := ioutil.ReadDir("/proc/self/fd")
+	if err != nil {
+		return out
+	}
+	for _, e := range ents {
+		var fd int
+		if _, err := fmt.Sscan(e.Name(), &fd); err != nil {
+			continue
+		}
+		if t, err := os.Readlink("/proc/self/fd/" + e.Name()); err == nil {
+			out[fd] = t
+		}
+	}
+	return out
+}
+
 // OpenNode runs pegnetd's real start-up path on the database at dbPath.
 func OpenNode(dbPath string, era Era, chain *Chain, opts NodeOpts) (*Node, error) {
 	initLogging()
@@ -198,8 +218,18 @@ func OpenNode(dbPath string, era Era, chain *Chain, opts NodeOpts) (*Node, error
 	conf.Set(config.SQLDBWalMode, opts.WAL)
 	conf.Set(config.DisableHardForkCheck, opts.NoHFCheck)
 	conf.Set(config.APIListen, "127.0.0.1:0")
+	before := openFiles()
 	p, err := node.NewPegnetd(context.Background(), conf)
 	if err != nil {
+		// A refused start leaves pegnetd's database pool open and unreachable (the real daemon exits
+		// at this point). Release the descriptors it opened on this database file, or a long series
+		// of refused sessions (C19) runs the process out of file descriptors. No other connection to
+		// the file is open at this moment, so no POSIX lock of a live connection is affected.
+		for fd, target := range openFiles() {
+			if _, was := before[fd]; !was && strings.HasPrefix(target, DBFile(dbPath)) {
+				syscall.Close(fd)
+			}
+		}
 		return nil, err
 	}
 	// NewPegnetd re-initialises the chain ids from the network name
@@ -236,10 +266,10 @@ func (n *Node) Close() {
 // SyncResult is what one DBlockSync run did.
 type SyncResult struct {
 	Reached   uint32   `json:"reached"`
-	Panic     string   `json:"panic,omitempty"`  // recovered panic on the sync goroutine
-	Fatal     bool     `json:"fatal,omitempty"`  // log.Fatal was called
+	Panic     string   `json:"panic,omitempty"` // recovered panic on the sync goroutine
+	Fatal     bool     `json:"fatal,omitempty"` // log.Fatal was called
 	WedgedAt  uint32   `json:"wedged_at,omitempty"`
-	Errors    []string `json:"errors,omitempty"` // error-level log lines
+	Errors    []string `json:"errors,omitempty"`  // error-level log lines
 	Stopped   bool     `json:"stopped,omitempty"` // stopped by the OnBlock callback
 	TimedOut  bool     `json:"timed_out,omitempty"`
 	FailCount int      `json:"fail_count"` // failed block attempts
